@@ -24,7 +24,7 @@ func checkC16(c *Check) {
 
 // C15: values are copied, never shared.
 func checkC15(c *Check) {
-	c.rule = "MC_Alias: 14 data-flow shapes (assignment either way, parameter, array element, hash value, foreach variable over literals and over variables, object field, re-initialised variable, literal in a function called twice, a copy taken between two mutations, a copy put in a container between mutations, literal in a loop body, element passed as argument) x 9 source literals (5, 0, 65534, 65535, 70000, -3, 1.5, 2.5, \"s\") x 6 mutations (++ -- += -= *= /=) (thorough: 26 source literals incl. more boundaries, empty and longer strings and a boolean, and every mutation followed by every second mutation of the same variable), each executed three times on one evaluator with every holder read afterwards; non-trivial = expectation is a value or ERR"
+	c.rule = "MC_Alias: 16 data-flow shapes (a copy of a field taken before the field name itself is mutated, alone and inside a container; assignment either way, parameter, array element, hash value, foreach variable over literals and over variables, object field, re-initialised variable, literal in a function called twice, a copy taken between two mutations, a copy put in a container between mutations, literal in a loop body, element passed as argument) x 9 source literals (5, 0, 65534, 65535, 70000, -3, 1.5, 2.5, \"s\") x 6 mutations (++ -- += -= *= /=) (thorough: 26 source literals incl. more boundaries, empty and longer strings and a boolean, and every mutation followed by every second mutation of the same variable), each executed three times on one evaluator with every holder read afterwards; non-trivial = expectation is a value or ERR"
 	c.assumptions = []string{"value semantics as defined by EFSemantics: mutation rebinds the named variable to a new value"}
 	runRows(c, "MC_Alias", stdCfg(c.Tier, "LiteralStable"), func(row *Row) {
 		replayProgRow(c, row, progOpts{})
